@@ -213,6 +213,11 @@ class Externals(object):
                 raise Unsupported("OrderedDict(args)", node)
             m = OrdMap.empty(interp.ctx)
             return m
+        if cls.name == "octoprint.settings.settings":
+            gs = getattr(interp.ctx, "global_settings", None)
+            if gs is None:
+                raise Unsupported("octoprint.settings.settings() outside a contract that provides the global settings", node)
+            return gs
         if cls.name == "object":
             o = Obj(None, {}, clsname="object")
             o.fresh = True
@@ -406,6 +411,15 @@ class Externals(object):
             if z is None:
                 raise Unsupported("regex sub on formatted string", node)
             return GCODE_PARAMS(z)
+        if name in ("match", "search", "fullmatch") and not getattr(rx, "opaque_predicate", False) and args \
+                and isinstance(args[0], str) and all(isinstance(a, int) for a in args[1:]):
+            # concrete pattern on a concrete string: CPython's own engine decides (assumption A2 on `re`)
+            import re as _re3
+            interp.ctx.assumed.add("A2:re on concrete text is evaluated by CPython's engine")
+            m = getattr(_re3.compile(rx.pattern), name)(*args)
+            if m is None:
+                return None
+            return ConcreteMatch(m)
         if name == "match" and not getattr(rx, "opaque_predicate", False) and len(args) == 2 and (is_symstr(args[0]) or isinstance(args[0], str)):
             from . import rx as rxmod
             return rxmod.structural_match(interp, rx.pattern, args[0], args[1], node)
@@ -419,6 +433,31 @@ class Externals(object):
         if h is not None:
             return h(interp, rx, args, kwargs, node)
         raise Unsupported("regex %s on pattern %r" % (name, rx.pattern), node)
+
+
+from .values import next_oid  # noqa: E402
+
+
+class ConcreteMatch(Model):
+    """A match object CPython produced for a concrete pattern and string."""
+    clsname = "re.Match"
+
+    def __init__(self, m):
+        self.m = m
+        self.oid = next_oid()
+
+    def call_method(self, interp, name, args, kwargs, node):
+        if name in ("group", "start", "end", "span", "groups") and all(isinstance(a, int) for a in args):
+            return getattr(self.m, name)(*args)
+        if name == "__bool__":
+            return True
+        raise Unsupported("match.%s%r" % (name, tuple(args)), node)
+
+    def copy(self, memo=None):
+        return self
+
+    def struct_eq(self, other):
+        return self is other
 
 
 class _Uuid(Model):
